@@ -134,6 +134,10 @@ type c09BatchCase struct {
 	Pool h.C09Pool `json:"pool"`
 	Cap  int       `json:"cap"` // > 0: NewBatchVerifierWithCapacity
 	Ops  []c09Op   `json:"ops"`
+	// Scribble: the buffers handed to Add* are the caller's and are reused
+	// (overwritten) right after each Add returns - an entry is what was added,
+	// not whatever the caller's buffers hold when Verify runs.
+	Scribble bool `json:"scribble,omitempty"`
 }
 
 // c09Env holds the per-case derived data shared by the batch and cache checks.
@@ -216,6 +220,9 @@ func c09CheckBatch(c c09BatchCase) h.Result {
 	}
 	var m c09Model
 	nt := false
+	if c.Scribble {
+		r.Class("caller-reuses-buffers")
+	}
 	resets, verifiesSinceChange := 0, 0
 	type held struct {
 		ent          int
@@ -273,16 +280,27 @@ func c09CheckBatch(c c09BatchCase) h.Result {
 						want = false
 					}
 				}
+				apk, amsg, asig := hd.pk, hd.msg, hd.sig
+				if c.Scribble {
+					apk, amsg, asig = c09Copy(b.PK), c09Copy(b.Msg), c09Copy(b.Sig)
+				}
 				if p, pv := h.Catch(func() {
 					switch api {
 					case 0:
-						v.Add(hd.pk, hd.msg, hd.sig)
+						v.Add(apk, amsg, asig)
 					case 1:
-						v.AddWithOptions(hd.pk, hd.msg, hd.sig, c09Options(b.Opt))
+						v.AddWithOptions(apk, amsg, asig, c09Options(b.Opt))
 					case 2:
-						v.AddExpanded(xk, hd.msg, hd.sig)
+						v.AddExpanded(xk, amsg, asig)
 					default:
-						v.AddExpandedWithOptions(xk, hd.msg, hd.sig, c09Options(b.Opt))
+						v.AddExpandedWithOptions(xk, amsg, asig, c09Options(b.Opt))
+					}
+					if c.Scribble {
+						for _, buf := range [][]byte{apk, amsg, asig} {
+							for j := range buf {
+								buf[j] ^= 0x5a
+							}
+						}
 					}
 				}); p {
 					return r.Fail("BatchVerifier.Add:panic", "op %d api %d entry %d (%s): %v", opi, api, idx, ent.Cls, pv).Result()
@@ -402,6 +420,7 @@ func c09GenBatch(t *rapid.T) c09BatchCase {
 		NSpec: rapid.IntRange(1, 6).Draw(t, "nspec"), MaxKeys: rapid.IntRange(3, 8).Draw(t, "maxkeys"), Kinds: pre}
 	pool, groups := h.C09GenPool(t, cfg)
 	c := c09BatchCase{Pool: pool}
+	c.Scribble = rapid.IntRange(0, 3).Draw(t, "scribble") == 0
 	if rapid.IntRange(0, 3).Draw(t, "withcap") == 0 {
 		c.Cap = rapid.SampledFrom([]int{1, 2, 64, 94, 95, 500}).Draw(t, "cap")
 	}
